@@ -279,6 +279,18 @@ func Execute(fn func(*Run), tape *Tape, seed uint64, tier string) (out Outcome) 
 // the first one after the runtime's panic frames.
 func panicInHarness(stack string) bool {
 	lines := strings.Split(stack, "\n")
+	// Engines re-raise panics from deferred clean-up functions, so the trace
+	// can show several nested "panic(" frames; the one that matters is the
+	// innermost (last) - the frame below it is where the panic was raised.
+	last := -1
+	for i, l := range lines {
+		if strings.HasPrefix(l, "panic(") {
+			last = i
+		}
+	}
+	if last > 0 {
+		lines = lines[last:]
+	}
 	seenPanic := false
 	for i := 0; i < len(lines); i++ {
 		l := lines[i]
